@@ -276,6 +276,7 @@ def main():
         # v1
         Dz('doc_v1_collection_id_min', tag_num(st1, 'CreateCollectionRequest', 'Id', 'min'))
         Dz('doc_v1_collection_id_max', tag_num(st1, 'CreateCollectionRequest', 'Id', 'max'))
+        Db('doc_v1_collection_id_alphanum', 'alphanum' in tag(st1, 'CreateCollectionRequest', 'Id').split(','))
         Dl('doc_v1_metrics', tag_oneof(st1, 'CreateCollectionRequest', 'DistanceMetric'))
         Dz('doc_v1_insert_vector_max', tag_num(st1, 'InsertSinglePointRequest', 'Vector', 'max'))
         Dz('doc_v1_update_vector_max', tag_num(st1, 'UpdateSinglePointRequest', 'Vector', 'max'))
